@@ -364,6 +364,29 @@ func partRoots(N, allW, allIdx int) {
 			}
 		}
 	}
+	// large lists: leaf counts per worker beyond the 256-leaf chunk cap (both tiers), around every
+	// power of two up to 16384 and a few in between, few workers
+	for _, base := range []int{1024, 2048, 4096, 8192, 16384} {
+		for _, d := range []int{-255, -1, 0, 1, 100, 255, 256, 257} {
+			n := base + d
+			if n <= N || r.Expired("large roots") {
+				continue
+			}
+			if f := seqCase(n); f != "" {
+				violate("root:"+vx.Norm(f, 60), f, kase{Kind: "seq", N: n})
+			}
+			for _, w := range []int{2, 3, 4, 7, 8, 16, 31} {
+				st := stepOf(n, w)
+				r.Count("evaluations", 1)
+				r.Count("root_cases", 1)
+				r.Count("large_root_cases", 1)
+				r.Seen("chunkings", fmt.Sprintf("large/per-worker>=%d/%s", 256*(n/w/256), remClass(n, st)))
+				if f := rootCase(n, w); f != "" {
+					violate(fmt.Sprintf("root:%s:large:step%d:%s", vx.Norm(f, 50), st, remClass(n, st)), f, kase{Kind: "root", N: n, W: w})
+				}
+			}
+		}
+	}
 	wg.Wait()
 	r.SampleN(3, kase{Kind: "branch", N: 301, I: 300})
 }
